@@ -83,8 +83,8 @@ func Setup(tmpDir string) error {
 
 // NetEnv is the simulated world of one run.
 type NetEnv struct {
-	K      *sim.Kernel
-	Srv    *refsmtpd.Server
+	K   *sim.Kernel
+	Srv *refsmtpd.Server
 	// Later: servers for the second, third, … connection (the peer may behave differently each
 	// time the client dials); connections beyond the list are served by Srv.
 	Later  []*refsmtpd.Server
